@@ -405,7 +405,7 @@ impl ToOrdinal {
             } else {
                 definitions.get_vec("NumbersOrdinalFractionalOnes")?
             };
-            let number_as_int: usize = number.parse().unwrap(); // already verified it is only digits
+            let number_as_int: usize = number.parse().ok()?; // already verified it is only digits, but it may have more of them than fit
             if number_as_int < words.len() {
                 // use the words associated with this irregular pattern.
                 return Some( words[number_as_int].clone() );
